@@ -81,7 +81,7 @@ def const_values(slot, bl, res, rnd):
     if slot in CONST_CHOICES:
         return CONST_CHOICES[slot]
     if slot == "s":
-        return list(range(0, bl + 1))
+        return list(range(0, bl + 1)) + [bl + 1, bl + 3, 2 * bl]
     if slot == "w":
         return sorted({1, 2, 3, max(1, bl - 1), bl, bl + 1, bl + 2})
     if slot == "c":
